@@ -272,3 +272,26 @@ func verifPFixedNum(name string, n int) verifPVal {
 	}
 	return verifPVal{kind: vkInt, v: json.Number(ds), i: val, text: ds}
 }
+
+// verifPRun: UnmarshalKey under recover()
+func verifPRun(m map[string]any, v any) (err error, panicked bool) {
+	_, panicked = verifExpectPanic(func() { err = UnmarshalKey(m, v) })
+	return
+}
+
+
+// value of the decimal strings ParseInt accepts among strings of <= 2 bytes
+func verifPAtoi(s string) (bool, int64) {
+	isD := func(c byte) bool { return verifAnd(c >= '0', c <= '9') }
+	switch len(s) {
+	case 1:
+		return isD(s[0]), int64(s[0] - '0')
+	case 2:
+		d0, d1 := int(s[0]-'0'), int(s[1]-'0')
+		ok := verifAnd(verifOr(isD(s[0]), verifOr(s[0] == '+', s[0] == '-')), isD(s[1]))
+		v := verifIte(isD(s[0]), 10*d0+d1, verifIte(s[0] == '-', -d1, d1))
+		return ok, int64(v)
+	}
+	return false, 0
+}
+
